@@ -174,6 +174,17 @@ func ruleC20_7(c *Ctx) {
 		}
 		ld := firstCall(f, "(*in_toto.Key).LoadKeyDefaults")
 		okLd := ld != nil && org(ld.Common().Args[1]) == "p1[0]"
+		// the load done by an unexported helper that returns the loaded key and the load error
+		var viaKey ssa.Value // the key handed back by that helper
+		if ld == nil {
+			for _, via := range allCalls(f) {
+				if pi, ok := c.keyLoaderHelper(via.Common().StaticCallee()); ok {
+					ld = via
+					okLd = org(via.Common().Args[pi]) == "p1[0]"
+					viaKey = resultN(via, 0)
+				}
+			}
+		}
 		okErr := false
 		if ld != nil {
 			if e := errResult(ld); e != nil {
@@ -186,10 +197,39 @@ func ruleC20_7(c *Ctx) {
 		pr := firstCall(f, "fmt.Printf")
 		// the loaded key variable: the receiver of LoadKeyDefaults (whatever it is called)
 		var keyVar ssa.Value
-		if ld != nil {
+		if ld != nil && viaKey == nil {
 			keyVar = ld.Common().Args[0]
 		}
+		if viaKey != nil {
+			// the returned key stored once into a local variable (when the command takes addresses of its fields)
+			for _, r := range *viaKey.Referrers() {
+				if st, ok := r.(*ssa.Store); ok && st.Val == viaKey {
+					if al, isAl := st.Addr.(*ssa.Alloc); isAl && len(storesTo(al)) == 1 {
+						keyVar = al
+					}
+				}
+			}
+		}
 		fieldOfKey := func(v ssa.Value, path ...string) bool {
+			// v is a field of the key value handed back by the loader helper
+			if viaKey != nil {
+				w := v
+				okF := true
+				for i := len(path) - 1; i >= 0; i-- {
+					fd, ok := w.(*ssa.Field)
+					if !ok || fieldName(fd.X.Type(), fd.Field) != path[i] {
+						okF = false
+						break
+					}
+					w = fd.X
+				}
+				if okF && w == viaKey {
+					return true
+				}
+				if keyVar == nil {
+					return false
+				}
+			}
 			// v is (a load of) keyVar.path...
 			if u, ok := v.(*ssa.UnOp); ok {
 				v = u.X
@@ -222,4 +262,55 @@ func ruleC20_7(c *Ctx) {
 			c.check(okPriv, R, n, "the private half is cleared before the key is marshalled", f.Pos(), "key.KeyVal.Private = \"\" dominates json.Marshal(key)", "key layout may print the private half of the key")
 		}
 	}
+}
+
+// keyLoaderHelper: g is an unexported function of package cmd with results (in_toto.Key, error) that loads one local
+// key variable with LoadKeyDefaults(path parameter), fails when the load fails, and returns that variable where the
+// load succeeded. Returns the index of the path parameter.
+func (c *Ctx) keyLoaderHelper(g *ssa.Function) (int, bool) {
+	if g == nil || g.Blocks == nil || g.Parent() != nil || g.Object() == nil || g.Object().Exported() || g.Pkg == nil || g.Pkg.Pkg.Name() != "cmd" {
+		return 0, false
+	}
+	res := g.Signature.Results()
+	if res.Len() != 2 || typeStr(res.At(0).Type()) != "in_toto.Key" || !isErrorType(res.At(1).Type()) {
+		return 0, false
+	}
+	lds := callsIn(g, "(*in_toto.Key).LoadKeyDefaults")
+	if len(lds) != 1 {
+		return 0, false
+	}
+	ld := lds[0]
+	al, ok := ld.Common().Args[0].(*ssa.Alloc)
+	pp, ok2 := resolve(ld.Common().Args[1], ld).(*ssa.Parameter)
+	if !ok || !ok2 || pp.Parent() != g {
+		return 0, false
+	}
+	okErr := false
+	if e := errResult(ld); e != nil {
+		for _, br := range errBranches(e) {
+			okErr = okErr || c.failing(br.NonNil)
+		}
+	}
+	if !okErr {
+		return 0, false
+	}
+	// nothing else writes the variable
+	for _, r := range *al.Referrers() {
+		switch x := r.(type) {
+		case *ssa.UnOp, *ssa.DebugRef:
+		case ssa.CallInstruction:
+			if x != ld {
+				return 0, false
+			}
+		default:
+			return 0, false
+		}
+	}
+	for _, r := range c.nilErrReturns(g) {
+		u, isLoad := r.Results[0].(*ssa.UnOp)
+		if !isLoad || u.X != ssa.Value(al) || !c.okCallAt(ld, r.Block()) {
+			return 0, false
+		}
+	}
+	return paramIndex(pp), true
 }
